@@ -23,6 +23,8 @@ pub struct TxRow {
     pub ioi: u32,
     pub out: bool,
     pub tx: u64,
+    /// the cell the row is about (the rich indexer's get_transactions filters on it)
+    pub cell: AOut,
 }
 pub struct ChainState {
     pub live: Vec<LiveCell>,
@@ -41,18 +43,18 @@ pub fn replay(chain: &[ABlock]) -> ChainState {
                 for (ii, (itx, iidx)) in t.inputs.iter().enumerate() {
                     if let Some(p) = live.iter().position(|c| c.tx == *itx && c.idx == *iidx) {
                         let c = live.remove(p);
-                        rows.push(TxRow { lock: true, script: c.out.lock.clone(), bn: b.num, txi, ioi: ii as u32, out: false, tx: t.id });
+                        rows.push(TxRow { lock: true, script: c.out.lock.clone(), bn: b.num, txi, ioi: ii as u32, out: false, tx: t.id, cell: c.out.clone() });
                         if let Some(ts) = &c.out.typ {
-                            rows.push(TxRow { lock: false, script: ts.clone(), bn: b.num, txi, ioi: ii as u32, out: false, tx: t.id });
+                            rows.push(TxRow { lock: false, script: ts.clone(), bn: b.num, txi, ioi: ii as u32, out: false, tx: t.id, cell: c.out.clone() });
                         }
                     }
                 }
             }
             for (oi, o) in t.outputs.iter().enumerate() {
                 live.push(LiveCell { tx: t.id, idx: oi as u32, bn: b.num, txi, out: o.clone() });
-                rows.push(TxRow { lock: true, script: o.lock.clone(), bn: b.num, txi, ioi: oi as u32, out: true, tx: t.id });
+                rows.push(TxRow { lock: true, script: o.lock.clone(), bn: b.num, txi, ioi: oi as u32, out: true, tx: t.id, cell: o.clone() });
                 if let Some(ts) = &o.typ {
-                    rows.push(TxRow { lock: false, script: ts.clone(), bn: b.num, txi, ioi: oi as u32, out: true, tx: t.id });
+                    rows.push(TxRow { lock: false, script: ts.clone(), bn: b.num, txi, ioi: oi as u32, out: true, tx: t.id, cell: o.clone() });
                 }
             }
         }
@@ -247,10 +249,10 @@ fn in_range(r: &Option<(u64, u64)>, x: u64, incl: bool) -> bool {
         Some((a, b)) => x >= *a && (if incl { x <= *b } else { x < *b }),
     }
 }
-fn contains(h: &[u8], n: &[u8]) -> bool {
+pub fn contains(h: &[u8], n: &[u8]) -> bool {
     n.is_empty() || h.windows(n.len()).any(|w| w == n)
 }
-fn cell_pass(q: &SQ, c: &LiveCell, slen_incl: bool) -> bool {
+pub fn cell_pass(q: &SQ, c: &LiveCell, slen_incl: bool) -> bool {
     let other = if q.lock { c.out.typ.clone() } else { Some(c.out.lock.clone()) };
     if let Some(fs) = &q.f.script {
         match &other {
